@@ -10,23 +10,39 @@ MODULES = ["TinsModel.Props.C11"]
 AUDIT = "Audit/C11.lean"
 LEVEL = "proof"
 MANIFEST = dict(
-    text="Lean 4 theorems over a code-shaped executable model of RadioTapParser, RadioTapWriter::write_option "
-         "(build_padding_vector, update_paddings) and the RadioTap constructors/setters/getters: for every finite "
-         "sequence of field writes (any order, repetitions) from the default header or from any parsed header the "
-         "decidable test decodeCanonical accepts, the options payload is the canonical layout of the last-write map "
-         "(write_canonical, setters_any_order, setters_any_order_parsed), lookups return the last write or "
-         "field_not_present, present() is the domain, trailer_size follows the FCS flag, and serialisation writes "
-         "exactly header+payload with a covering length field and re-parses to the same state (serialize_reparse). "
-         "The field table and the setter/getter field+width tables are regenerated from the source on every run and "
-         "the table theorems re-decided; model, implementation (ASan/UBSan) and the executable spec oracle are compared "
-         "on exhaustive small-scope and random setter histories, canonical and malformed parsed headers and "
+    text="Lean 4 theorems over a code-shaped executable model of RadioTapParser (a fault-explicit version in which "
+         "every raw read is bounds-tested, proved equal to the total one), RadioTapWriter::write_option "
+         "(build_padding_vector, update_paddings) and the RadioTap constructors/setters/getters/serializer. "
+         "(1) Parser: for every byte string the constructor, advance_field, skip_to_field, has_field, current_option and "
+         "present() never read outside the buffer or the field table, terminate within explicit fuel, and throw only "
+         "malformed_packet (parser_ctor_safe, parser_ops_safe, parser_walk_total, present_safe). (2) Setters: from every "
+         "reachable object (default, parsed from any accepted bytes, written) every sequence of add_option calls with any "
+         "field and value length never faults (write_option_safe, setters_never_fault, observers_never_fault); for every "
+         "finite sequence of valid writes from the default header, a canonical parsed header, or any parsed header the "
+         "decidable test decodeLayout accepts (chain of present words, later words empty / namespace bits / unknown "
+         "bits, foreign trailing bytes) the payload is the well-aligned layout of the last-write map inside the unchanged "
+         "frame, getters return the last write or field_not_present, present() has the domain as table bits "
+         "(setters_any_order, setters_any_order_layout, setters_any_order_parsed_layout, getter_last_write_layout, "
+         "setter_frame_partial); when the last present word announces table fields the chain and the first word's "
+         "fields are still right and read back, only the bytes behind them are re-padded (write_layout_live, "
+         "setters_any_order_live, setter_frame_live); the full frame statement SetterFrameAll is refuted on a "
+         "vendor-namespace witness (setter_frame_fails, KF-C11-6, replayed on the real code on every run). "
+         "(3) Serialization: length_covers for every object; serialize_reparse_any: for every payload the parser accepts "
+         "the re-parsed object has the same version, pad and payload and the inner frame gets exactly its bytes. "
+         "The field table, PresentFlags and the setter/getter field+width tables are regenerated from the source on every "
+         "run and the table theorems re-decided; model, implementation (ASan/UBSan) and the executable spec oracle are "
+         "compared on exhaustive small-scope and random setter histories, canonical / multi-word / vendor / truncated / "
+         "noise headers followed by setter sequences, raw RadioTapParser walks over damaged option buffers, and "
          "serialize/re-parse round trips.",
     note="Trusted: Lean kernel + standard axioms; hand-written model tied by correspondence "
          "(harness/c11_radiotap.cpp); translator/gen_radiotap.py (regex over the three source files); FCS value "
-         "checked against an independent CRC-32 in the harness; inner 802.11 frames are opaque bytes. Multi-namespace / "
-         "vendor / truncated parsed headers are modelled and compared but not covered by the theorems.",
-    technique="Lean 4 proof (induction over field lists, padding-vector invariant for update_paddings) + "
-              "model/impl correspondence + spec oracle",
+         "checked against an independent CRC-32 in the harness; inner 802.11 frames are opaque bytes. Well-aligned = "
+         "zero padding bytes; headers with non-zero padding, misaligned or truncated fields are covered by the safety "
+         "theorems and the any-payload serialization theorem only. Known finding KF-C11-6: setters re-pad vendor / "
+         "unknown-namespace bytes behind the first present word's fields when the last present word has table bits.",
+    technique="Lean 4 proof (induction over field lists, padding-vector invariants for update_paddings, validated-chain "
+              "invariant and progress measure for the parser, refinement checked=total) + model/impl correspondence + "
+              "spec oracle written from the radiotap standard",
     design="DESIGN.md §6 C11")
 
 META = [(8, 8), (1, 1), (1, 1), (4, 2), (2, 2), (1, 1), (1, 1), (2, 2), (2, 2), (2, 2), (1, 1), (1, 1), (1, 1), (1, 1),
@@ -269,13 +285,18 @@ def layout_case(rng, maxlen=12):
         elif r < 0.8:
             b = rng.randrange(20)
             ops.append(f"add {b} {hexs(rand_value(rng, b))}")
-        elif r < 0.9:
-            ops.append("ser " + rng.choice(INNER + ["-"]))
         else:
-            ops.append(f"walk {hexs(pl)}")
+            ops.append("ser " + rng.choice(INNER + ["-"]))
     if rng.random() < 0.5:
         ops.append("ser " + rng.choice(INNER))
     return ops
+
+
+# KF-C11-6, reproduced on every run: FLAGS in the first present word, which announces a vendor namespace; the vendor
+# present word has bit 0, the vendor data starts with a zero byte; rate(9) erases that byte
+KF6_CASE = ["parse 00001d00020000c00100000000001122010400deadbeef999897969594", "set rate 09"]
+# KF-C11-5 (fixed): a field above every field of the first word used to land among the last word's fields
+KF5_CASE = ["parse 00001900010000a00200000000000000010203040506070802", "set rate 09", "set flags 00"]
 
 
 def classify(op, impl):
@@ -327,6 +348,8 @@ def run(chk):
 
     quick = chk.tier == "quick"
     go([["tail"]])
+    go([KF6_CASE])
+    go([KF5_CASE])
     ex = exhaustive_cases(chk.tier, rng)
     chk.extra["exhaustive_cases"] = len(ex)
     go_all(ex[:200], 200)
@@ -347,30 +370,56 @@ def run(chk):
     lc = [layout_case(rng) for _ in range(nlay)]
     go_all(lc[:300], 300)
     go_all(lc[300:], 3000)
+    # how often the oracle commits itself: verdicts over a sample of each generator's cases
+    verdicts = {}
+    for name, sample in (("random", rc[:150]), ("mutated", mc[:150]), ("parser", pc[:300]), ("layout", lc[:200])):
+        ops = [l for c in sample for l in c]
+        _, _, spec, _ = corr.evaluate(AREA, exe, ops, CASE_START)
+        cnt = {}
+        for o, v in zip(ops, spec or []):
+            k = o.split(" ", 1)[0] + ":" + v.split(" ", 1)[0]
+            cnt[k] = cnt.get(k, 0) + 1
+        verdicts[name] = dict(sorted(cnt.items()))
+    chk.extra["oracle_verdicts_sample"] = verdicts
     for p in problems:
         # a theorem / generated table no longer checks: the run above was the search for a concrete failing input
         if not (stats.get("spec", 0) + stats.get("fault", 0)):
             chk.violation("proof obligation no longer checks: " + p[:1500], ["theorem-or-audit-failure", p[:4000]], nofail=True)
     chk.cov["rule"] = ("cases = start state (default header | parsed canonical header over a subset of the 22 known "
-                       "fields | parsed malformed header) followed by setter / add_option / serialize+reparse ops; "
-                       "after every op the full observable state (payload, present, sizes, all 19 getter results) is "
-                       "compared; distinct_nontrivial counts distinct (operation, implementation result) pairs")
+                       "fields | parsed header with a chain of 1..4 present words, inert or live foreign bytes, radiotap / "
+                       "vendor / unknown namespace bits, unknown field bits | parsed malformed header: truncated, "
+                       "misaligned, wrong length, noise) followed by setter / add_option / serialize+reparse ops; after "
+                       "every op the full observable state (payload, present, sizes, all 19 getter results) is compared; "
+                       "raw RadioTapParser cases = walk / skip_to_field over built, truncated, bit-flipped, never-ending "
+                       "and random option buffers, every reported field, current_option, namespace index/type and "
+                       "has_field of all 32 flags compared; distinct_nontrivial counts distinct (operation, "
+                       "implementation result) pairs; oracle_verdicts_sample = spec verdicts per generator")
     chk.assumptions += [
         "get_bit(1 << bit) = bit (floating-point log2 on exact powers of two)",
         "uint32_t offset arithmetic of update_paddings is modelled in the integers (buffers < 4 GiB)",
-        "little-endian host; RadioTapParser::current_namespace_ is not observable through RadioTap and not modelled",
-        "the oracle treats headers that are not canonical single-namespace layouts, writes of a wrong size and "
-        "frames flagged FCS|FAILED_FCS (which libtins refuses to parse) as unspecified",
+        "little-endian host",
+        "well-aligned headers have zero padding bytes (decodeLayout); the oracle treats parsed headers that are not "
+        "well aligned, writes of a wrong size and frames flagged FCS|FAILED_FCS (which libtins refuses to parse) as "
+        "unspecified beyond the universal clauses (no fault, length_covers, reparse of the reported payload)",
+        "a later present word is a radiotap-namespace word (whose fields may be re-aligned) only when it is the second "
+        "of two words and the first has bit 29; bytes behind the first word's fields are foreign otherwise",
         "inner 802.11 frames are opaque bytes taken from a pool libtins round-trips byte for byte",
+        "current_option() is only called while a field is current (RADIOTAP_METADATA[MAX] is outside the table)",
     ]
     chk.trusted += ["correspondence harness harness/c11_radiotap.cpp + generators in checks/C11.py",
                     "translator/gen_radiotap.py (RADIOTAP_METADATA, PresentFlags, setter/getter field+width tables)",
                     "g++ 12 / ASan+UBSan build of the repo's working tree"]
     chk.extra["modelled_not_proved"] = [
-        "multi-namespace / vendor-namespace / truncated parsed headers: parser, setters and getters are modelled and "
-        "compared with the implementation, the theorems cover single-namespace canonical headers",
-        "serialize(): header bytes, length field, trailer size and the re-parse are modelled and checked by the "
-        "oracle; the FCS value is compared with an independent CRC-32 in the harness (C05 owns the CRC proof)"]
+        "parsed headers that are not well aligned (non-zero padding bytes, fields that do not fit, misaligned data): "
+        "the safety theorems (no fault, termination) and the any-payload serialization theorem cover them; what the "
+        "getters return after setters on them is compared with the implementation only",
+        "live frames (last present word with table bits): the bytes behind the first word's fields after an insertion "
+        "are only shown to exist (re-padded by update_paddings), their content is compared with the implementation and, "
+        "for a radiotap-namespace second word, checked by the oracle (same field values at re-aligned offsets)",
+        "current_namespace() / namespace index: modelled (Checked.lean), compared and checked by the oracle against the "
+        "standard; no theorem beyond safety",
+        "serialize(): the FCS value is compared with an independent CRC-32 in the harness (C05 owns the CRC proof); "
+        "the inner 802.11 frame is an opaque length"]
     corr.finalize_cov(chk)
 
 
